@@ -117,6 +117,13 @@ func registerIntrinsics(e *Engine) {
 		p.unwind = int(concInt(p, a[0], "SetUnwind"))
 		return nil
 	}
+	// UnwindIsViolation(id): from now on a loop that exceeds the unwinding bound is reported as a violation
+	// of assertion id (used where termination itself is the property and the bound is derived from the
+	// structure of the input) instead of making the run inconclusive.
+	I[M+"UnwindIsViolation"] = func(p *Path, fn *ssa.Function, a []Value) Value {
+		p.unwindAssert = concStr(p, a[0], "UnwindIsViolation")
+		return nil
+	}
 	I[M+"Stop"] = func(p *Path, fn *ssa.Function, a []Value) Value {
 		msg := concStr(p, a[0], "Stop")
 		id := "no_deadlock"
@@ -568,7 +575,7 @@ func (p *Path) fpCut(t *Term, w int, signed bool) (*Term, bool) {
 		return nil, false
 	}
 	op := t.Op
-	if op != "fp.ceil" && op != "fp.floor" && op != "fp.trunc" {
+	if op != "fp.ceil" && op != "fp.floor" && op != "fp.trunc" && op != "fp.round" {
 		return nil, false
 	}
 	d := t.Args[0]
@@ -592,6 +599,9 @@ func (p *Path) fpCut(t *Term, w int, signed bool) (*Term, bool) {
 		switch op {
 		case "fp.ceil":
 			return UDiv(Add(x, BVC(64, c-1)), BVC(64, c))
+		case "fp.round":
+			// round half away from zero of a non-negative quotient: floor((2x + c) / 2c)
+			return UDiv(Add(Mul(x, BVC(64, 2)), BVC(64, c)), BVC(64, 2*c))
 		default:
 			return UDiv(x, BVC(64, c))
 		}
